@@ -103,6 +103,46 @@ struct Deriver<'g, 'a, 'b> {
     alphabet: &'g [char],
     /// byte offsets of token starts (for mutation)
     tokens: Vec<usize>,
+    /// "pump" mode: number of entries into recursive rules still to be forced (deeply nested inputs)
+    pump_left: usize,
+    /// rules from which a recursive rule (one that can reach itself) is reachable; only filled in pump mode
+    pumpable: std::collections::BTreeSet<String>,
+}
+
+/// rules that can reach themselves, and rules from which such a rule is reachable
+pub fn pumpable_rules(g: &Grammar) -> std::collections::BTreeSet<String> {
+    use std::collections::{BTreeMap, BTreeSet};
+    let mut direct: BTreeMap<String, BTreeSet<String>> = BTreeMap::new();
+    for n in g.normals() {
+        let mut set = BTreeSet::new();
+        n.body.walk(&mut |e| match e {
+            Expr::Ref { typ, .. } => {
+                set.insert(typ.clone());
+            }
+            Expr::Include(r) => {
+                set.insert(r.clone());
+            }
+            _ => {}
+        });
+        direct.insert(n.name.clone(), set);
+    }
+    // transitive closure (grammars are small)
+    let mut reach = direct.clone();
+    loop {
+        let mut changed = false;
+        let snapshot = reach.clone();
+        for (_, set) in reach.iter_mut() {
+            let add: Vec<String> = set.iter().filter_map(|t| snapshot.get(t)).flatten().cloned().collect();
+            for a in add {
+                changed |= set.insert(a);
+            }
+        }
+        if !changed {
+            break;
+        }
+    }
+    let cyclic: BTreeSet<String> = reach.iter().filter(|(k, v)| v.contains(*k)).map(|(k, _)| k.clone()).collect();
+    reach.iter().filter(|(k, v)| cyclic.contains(*k) || v.iter().any(|t| cyclic.contains(t))).map(|(k, _)| k.clone()).collect()
 }
 
 impl<'g, 'a, 'b> Deriver<'g, 'a, 'b> {
@@ -163,11 +203,27 @@ impl<'g, 'a, 'b> Deriver<'g, 'a, 'b> {
         *self.src.choose(self.alphabet)
     }
 
+    fn pumps(&self, e: &Expr) -> bool {
+        self.pump_left > 0 && self.recursive(e)
+    }
+
+    fn recursive(&self, e: &Expr) -> bool {
+        let mut found = false;
+        e.walk(&mut |x| match x {
+            Expr::Ref { typ, .. } if self.pumpable.contains(typ) => found = true,
+            Expr::Include(r) if self.pumpable.contains(r) => found = true,
+            _ => {}
+        });
+        found
+    }
+
     fn expr(&mut self, e: &Expr, skipping: bool, depth: usize) {
-        if self.out.len() > self.cfg.max_len * 2 {
+        let pumping = self.pump_left > 0;
+        if self.out.len() > if pumping { PUMP_MAX_LEN } else { self.cfg.max_len * 2 } {
             return;
         }
-        let deep = depth >= self.cfg.max_depth;
+        // in pump mode everything off the recursive path is kept minimal
+        let deep = depth >= self.cfg.max_depth || !self.pumpable.is_empty();
         match e {
             Expr::Lit { s, insensitive } => {
                 self.ws(skipping);
@@ -205,18 +261,28 @@ impl<'g, 'a, 'b> Deriver<'g, 'a, 'b> {
                 }
             }
             Expr::Choice(v) => {
-                let k = if deep { 0 } else { self.src.pick(v.len()) };
+                let pumping_arms: Vec<usize> = (0..v.len()).filter(|i| self.pumps(&v[*i])).collect();
+                let k = if !pumping_arms.is_empty() {
+                    pumping_arms[self.src.pick(pumping_arms.len())]
+                } else if !self.pumpable.is_empty() {
+                    // pump exhausted: leave the recursion through the first alternative that does not recurse
+                    (0..v.len()).find(|i| !self.recursive(&v[*i])).unwrap_or(0)
+                } else if deep {
+                    0
+                } else {
+                    self.src.pick(v.len())
+                };
                 self.expr(&v[k], skipping, depth + 1);
             }
             Expr::Group(b) => self.expr(b, skipping, depth),
             Expr::Opt(b) => {
-                if !deep && self.src.chance(150) {
+                if self.pumps(b) || (!deep && self.src.chance(150)) {
                     self.expr(b, skipping, depth + 1)
                 }
             }
             Expr::Star(b) | Expr::Plus(b) => {
                 let min = if matches!(e, Expr::Plus(_)) { 1 } else { 0 };
-                let n = if deep { min } else { min + self.src.weighted(&[16, 20, 12, 4, 2, 1, 1, 1]) };
+                let n = if self.pumps(b) { 1 } else if deep { min } else { min + self.src.weighted(&[16, 20, 12, 4, 2, 1, 1, 1]) };
                 for _ in 0..n {
                     self.expr(b, skipping, depth + 1);
                 }
@@ -246,6 +312,12 @@ impl<'g, 'a, 'b> Deriver<'g, 'a, 'b> {
         match self.g.find(name) {
             None => {}
             Some(RuleDef::Normal(n)) => {
+                if self.pump_left > 0 && self.pumpable.contains(name) {
+                    // forced descent along a recursive path: the nesting budget is the pump counter, not `depth`
+                    self.pump_left -= 1;
+                    self.expr(&n.body, !n.no_skip_ws(), depth.min(self.cfg.max_depth.saturating_sub(1)));
+                    return;
+                }
                 if depth > self.cfg.max_depth + 6 {
                     return;
                 }
@@ -363,14 +435,66 @@ pub enum InputKind {
     Derived,
     Mutated,
     Alphabet,
+    /// deeply nested: a recursive path of the grammar followed to a chosen depth
+    Pumped,
+    /// any of the above with an unusual first character (BOM, zero width space, NUL ...)
+    OddStart,
+}
+
+/// upper bound on the length of a "pumped" (deeply nested) input
+pub const PUMP_MAX_LEN: usize = 24_000;
+
+/// characters that a careless front end might treat specially at the very start of the input
+pub const LEADING_ODDITIES: &[char] = &['\u{FEFF}', '\u{200B}', '\0', '\u{FFFE}', '\u{2060}', '\u{1}'];
+
+/// nesting depths for pumped inputs: dense around powers of two and round numbers (where depth limits, counters
+/// and table sizes live), sparse in between
+fn pump_depth(src: &mut Src) -> usize {
+    let jitter = |src: &mut Src| src.range(0, 8) as i64 - 4;
+    match src.weighted(&[6, 5, 4, 3]) {
+        0 => src.range(8, 120),
+        1 => {
+            let k = src.range(6, 10) as u32; // 64 .. 1024
+            ((1i64 << k) + jitter(src)).max(1) as usize
+        }
+        2 => {
+            let base = *src.choose(&[100i64, 200, 250, 500, 1000]);
+            (base + jitter(src)).max(1) as usize
+        }
+        _ => src.range(120, 1200),
+    }
 }
 
 /// Build one input for (grammar, rule) from choice bytes.
 pub fn build_input(g: &Grammar, rule: &str, bytes: &[u8], cfg: &InputCfg, alphabet: &[char]) -> (String, InputKind) {
     let mut src = Src::new(bytes);
-    let mode_raw = src.weighted(&[10, 6, 4, 1]);
+    let (s, kind) = build_input_core(g, rule, &mut src, cfg, alphabet);
+    if src.chance(8) {
+        // an unusual very first character (byte order mark, zero width space, NUL ...)
+        let mut t = String::new();
+        t.push(*src.choose(LEADING_ODDITIES));
+        t.push_str(&s);
+        let _ = kind;
+        return (t, InputKind::OddStart);
+    }
+    (s, kind)
+}
+
+fn build_input_core<'a>(g: &Grammar, rule: &str, src: &mut Src<'a>, cfg: &InputCfg, alphabet: &[char]) -> (String, InputKind) {
+    let mode_raw = src.weighted(&[20, 12, 8, 2, 1]);
+    if mode_raw == 4 {
+        // pumped input: follow a recursive path of the grammar to a chosen nesting depth
+        let pumpable = pumpable_rules(g);
+        if !pumpable.is_empty() {
+            let depth = pump_depth(src);
+            let mut d = Deriver { g, src: &mut *src, out: String::new(), cfg, alphabet, tokens: vec![], pump_left: depth, pumpable };
+            d.rule(rule, 0);
+            let out = std::mem::take(&mut d.out);
+            return (clip(out, PUMP_MAX_LEN), InputKind::Pumped);
+        }
+    }
     let repeat = mode_raw == 3;
-    let mode = if repeat { 0 } else { mode_raw };
+    let mode = if repeat || mode_raw == 4 { 0 } else { mode_raw };
     if mode == 2 {
         let n = src.range(0, 12);
         let mut s = String::new();
@@ -379,7 +503,7 @@ pub fn build_input(g: &Grammar, rule: &str, bytes: &[u8], cfg: &InputCfg, alphab
         }
         return (clip(s, cfg.max_len), InputKind::Alphabet);
     }
-    let mut d = Deriver { g, src: &mut src, out: String::new(), cfg, alphabet, tokens: vec![] };
+    let mut d = Deriver { g, src: &mut *src, out: String::new(), cfg, alphabet, tokens: vec![], pump_left: 0, pumpable: Default::default() };
     d.rule(rule, 0);
     // trailing text: whitespace and/or junk
     if d.src.chance(40) {
@@ -410,7 +534,7 @@ pub fn build_input(g: &Grammar, rule: &str, bytes: &[u8], cfg: &InputCfg, alphab
     if mode == 0 {
         (clip(out, cfg.max_len), InputKind::Derived)
     } else {
-        let m = mutate(&out, &tokens, &mut src, alphabet);
+        let m = mutate(&out, &tokens, src, alphabet);
         (clip(m, cfg.max_len), InputKind::Mutated)
     }
 }
